@@ -50,22 +50,34 @@ harness!(flatop_apply, unwind = 7, |s| {
     core::mem::forget(op);
 });
 
-harness!(unary_append, unwind = 8, |s| {
+harness!(unary_append_after, unwind = 5, |s| {
     let x = s.u64(); s.assume(x < (1 << 30));
-    // a = [t3, t4] (inner), b = [t1, t2] (outer, applied after a)
-    let mut a = UnaryOp::from_vec(smallvec::smallvec![UnaryFuncWithIdx { f: T[2], idx: 2 }, UnaryFuncWithIdx { f: T[3], idx: 3 }]);
-    let b = UnaryOp::from_vec(smallvec::smallvec![UnaryFuncWithIdx { f: T[0], idx: 0 }, UnaryFuncWithIdx { f: T[1], idx: 1 }]);
+    // a = [t2] (inner), b = [t1] (outer, applied after a)
+    let mut a = UnaryOp::from_vec(smallvec::smallvec![UnaryFuncWithIdx { f: T[1], idx: 1 }]);
+    let b = UnaryOp::from_vec(smallvec::smallvec![UnaryFuncWithIdx { f: T[0], idx: 0 }]);
     let inner = a.apply(x);
-    a.append_after(b.clone());
-    assert!(a.len() == 4, "C01 append_after keeps every function");
-    assert!(a.apply(x) == b.apply(inner), "C01 a.append_after(b): b is applied after a");
-    assert!(a.apply(x) == expect(0, 4, x), "C01 append_after order");
+    let outer_of_inner = b.apply(inner);
+    a.append_after(b);
+    assert!(a.len() == 2, "C01 append_after keeps every function");
+    assert!(a.apply(x) == outer_of_inner, "C01 a.append_after(b): b is applied after a");
+    assert!(a.apply(x) == expect(0, 2, x), "C01 append_after order");
+    core::mem::forget(a);
+});
+harness!(unary_remove_latest, unwind = 6, |s| {
+    let x = s.u64(); s.assume(x < (1 << 30));
+    let mut a = chain(3);
     a.remove_latest();
-    assert!(a.apply(x) == expect(1, 4, x), "C01 remove_latest drops the function applied last");
-    let mut c = UnaryOp::from_vec(smallvec::smallvec![UnaryFuncWithIdx { f: T[3], idx: 3 }]);
-    c.append_after_iter([UnaryFuncWithIdx { f: T[1], idx: 1 }, UnaryFuncWithIdx { f: T[2], idx: 2 }].into_iter());
-    assert!(c.apply(x) == expect(1, 4, x), "C01 append_after_iter: the new functions are applied after the existing ones, first of them last");
-    core::mem::forget((a, b, c));
+    assert!(a.len() == 2, "C01 remove_latest removes one function");
+    assert!(a.apply(x) == expect(1, 3, x), "C01 remove_latest drops the function applied last");
+    core::mem::forget(a);
+});
+harness!(unary_append_iter, unwind = 5, |s| {
+    let x = s.u64(); s.assume(x < (1 << 30));
+    let mut c = UnaryOp::from_vec(smallvec::smallvec![UnaryFuncWithIdx { f: T[2], idx: 2 }]);
+    c.append_after_iter([UnaryFuncWithIdx { f: T[0], idx: 0 }, UnaryFuncWithIdx { f: T[1], idx: 1 }].into_iter());
+    assert!(c.len() == 3, "C01 append_after_iter keeps every function");
+    assert!(c.apply(x) == expect(0, 3, x), "C01 append_after_iter: the new functions are applied after the existing ones, first of them last");
+    core::mem::forget(c);
 });
 
-registry!("u4", unary_apply, flatop_apply, unary_append);
+registry!("u4", unary_apply, flatop_apply, unary_append_after, unary_remove_latest, unary_append_iter);
